@@ -16,7 +16,7 @@ pub fn def() -> PropDef {
         id: "C06",
         check,
         genome_len: 160,
-        quick_cases: 400_000,
+        quick_cases: 600_000,
         thorough_cases: 40_000_000,
         rule: "case = (field in {Fq,Fr}, a, b with a relation, exponent e); operands from canonical boundaries, stored-limb (Montgomery) boundary patterns, powers of two, small, uniform; non-trivial = some operand is from a boundary/limb class or the pair is related (not uniform x uniform x independent); distinct by (field,a,b,e)",
         required: &[
@@ -31,33 +31,8 @@ pub fn def() -> PropDef {
     }
 }
 
-/// model of the Montgomery product's pre-subtraction value u = (T + m p) / 2^256 for stored operands
 fn mont_pre(sa: &BigUint, sb: &BigUint, m: Md) -> BigUint {
-    let p = m.p();
-    let r = &zp::c().two256;
-    let t = sa * sb;
-    // m = T * (-p^-1) mod R ; p^-1 mod R by Newton on bigints is overkill: use modpow-free extended approach
-    // (-p^-1 mod 2^256) computed once
-    use std::sync::OnceLock;
-    static NQ: OnceLock<BigUint> = OnceLock::new();
-    static NR: OnceLock<BigUint> = OnceLock::new();
-    let cell = match m {
-        Md::Q => &NQ,
-        Md::R => &NR,
-    };
-    let ninv = cell.get_or_init(|| {
-        // x_{k+1} = x_k (2 - p x_k) mod 2^256 doubles the number of correct low bits
-        let mut x = BigUint::one();
-        for _ in 0..9 {
-            let px = (p * &x) % r;
-            let two_minus = (r + 2u32 - px) % r;
-            x = (x * two_minus) % r;
-        }
-        assert!(((p * &x) % r).is_one());
-        (r - x) % r
-    });
-    let mm = ((&t % r) * ninv) % r;
-    (t + mm * p) >> 256
+    crate::gen::mont_pre_sum(&[(sa.clone(), sb.clone())], m)
 }
 
 macro_rules! field_case {
@@ -74,7 +49,7 @@ macro_rules! field_case {
         $info.nontrivial = !(fa.class == "uniform" && fb.class == "uniform" && rel == "independent");
         $key.s(m.name()).big(&a).big(&b).big(&e);
         if $ctx.want_desc {
-            $info.desc = Some(json!({"field": m.name(), "a": zp::hexs(&a), "a_class": fa.class, "b": zp::hexs(&b), "b_class": fb.class, "relation": rel, "e": zp::hexs(&e)}));
+            $info.desc = crate::runner::note(json!({"field": m.name(), "a": zp::hexs(&a), "a_class": fa.class, "b": zp::hexs(&b), "b_class": fb.class, "relation": rel, "e": zp::hexs(&e)}));
         }
         // stored-side classes, computed in the model
         let (sa, sb) = (mont_of(&a, m), mont_of(&b, m));
